@@ -34,4 +34,17 @@ PROPS = {
                      {"variant": "tsan", "name": "tsan", "targets": ["stress/*"], "budget_s": 600, "scale": 0.5, "shards": 4},
                      {"variant": "miri", "name": "miri", "shards": 16, "budget_s": 900, "timeout_s": 3000, "scale": 8, "args": []}],
     },
+    "C08": {
+        "level": "exploration",
+        "technique": "runtime monitoring: controlled schedule-point scheduler inside the pools' pop/push paths + ownership/content shadow monitors + quiescent free-structure walk (hook H2); AddressSanitizer and Miri on the same executions",
+        "level_text": "2-3 client threads run short alloc/free lists against a fresh pool (SecureMemoryPool, LockFreeMemoryPool, five-level LockFreePool and MutexBasedPool, FixedCapacityMemoryPool; global size-class pools free-running) under a scheduler that interleaves them at hook points between head load, next read and compare-exchange; an ownership map flags any block handed out while another owner still holds an overlapping range, contents are stamped and re-read, and after join the free structures are walked (no cycle, no duplicate, nothing lost, counters add up). The same executions run under AddressSanitizer and Miri so that a read of a freed node is a report. Interleavings are sampled, not enumerated.",
+        "level_note": "Trusted: harness ownership map (register after allocate returns / remove before free: sound under any schedule); H2 walkers are read-only and used only after all clients joined. TSan / Miri data-race detection are NOT used for the tagged free lists: a stale read of the next link that is discarded by the failing compare-exchange is by design there and outside the property.",
+        "rule": "case = one execution: (pool kind, config, per-thread op lists, strategy, scheduler seed). Non-trivial: >= 3 successful allocations. Distinct: distinct (pool, ops, schedule-trace hash).",
+        "assumptions": ["pre-emption only at verif-hooks sites and between client operations in controlled mode"],
+        "required_sites": [100, 101, 102, 200, 201, 211, 301, 311, 401, 411],
+        "quick": [q(60), {"variant": "asan", "name": "asan", "scale": 0.25, "budget_s": 60, "leaks": 0},
+                  {"variant": "miri", "name": "miri", "shards": 12, "budget_s": 240, "timeout_s": 900, "miriflags": "-Zmiri-ignore-leaks -Zmiri-disable-data-race-detector"}],
+        "thorough": [q(900), {"variant": "asan", "name": "asan", "scale": 0.3, "budget_s": 600, "leaks": 0},
+                     {"variant": "miri", "name": "miri", "shards": 16, "budget_s": 900, "timeout_s": 3000, "scale": 6, "miriflags": "-Zmiri-ignore-leaks -Zmiri-disable-data-race-detector"}],
+    },
 }
